@@ -23,6 +23,10 @@ from .refnum import OOD, V
 from .refsem import Arr, LooseV, PName, Sym
 
 
+# symbolic comparisons for which no generic point could be evaluated (counted, never a verdict)
+UNCHECKABLE = [0]
+
+
 def _rrt():
     from blackbird.listener import RegRefTransform
 
@@ -287,7 +291,7 @@ def _sym_agree(fa, fb, names, cfg, path, out, what):
             bad += 1
             worst = (pt, za, zb)
     if good + bad == 0:
-        out.append((path, "uncheckable:" + what, "", ""))
+        UNCHECKABLE[0] += 1
     elif bad > good:
         out.append((path, "value:" + what, repr(worst[1]), repr(worst[2]) + " at " + json.dumps(worst[0])))
 
@@ -485,7 +489,7 @@ def diff_ref_value(r, x, path, out, seed="ref"):
                     bad += 1
                     worst = (pt, ref, got)
             if good + bad == 0:
-                out.append((path, "uncheckable:regref", refsem.show_tree(r.tree), ""))
+                UNCHECKABLE[0] += 1
             elif bad > good:
                 out.append((path, "value:regref", repr(worst[1]), "%r at %r" % (worst[2], {k[1]: v.v for k, v in worst[0].items()})))
             return
@@ -511,7 +515,7 @@ def diff_ref_value(r, x, path, out, seed="ref"):
                 bad += 1
                 worst = (pt, ref, got)
         if good + bad == 0:
-            out.append((path, "uncheckable:sym", refsem.show_tree(r.tree), ""))
+            UNCHECKABLE[0] += 1
         elif bad > good:
             out.append((path, "value:sym", repr(worst[1]), repr(worst[2])))
         return
